@@ -15,6 +15,7 @@ RULE = ("case = up to 4 producer maps (LocalNode TPDOs) and 4 consumer maps (Rem
         "foreign frame / remote request / subscribe / reconfigure / add callback / start-stop / read / state operations; "
         "non-trivial = at least one transmit that reaches a subscribed consumer whose layout has an unaligned or sub-byte field; "
         "plus (oracle only) waits for reception served by a second thread")
+CASE_TIMEOUT = 30     # a dispatch that blocks (e.g. on a lock a callback needs) becomes an observation, not a hang
 TRUSTED = ["modelled, not verified: threading.Condition in wait_for_reception (exercised with a real second thread, oracle only); python-can Message"]
 ASSUMPTIONS = ["the bus delivers a transmitted frame to the subscribers of its CAN id with the timestamp the bus assigns (integers injected by the harness)"]
 
@@ -159,7 +160,13 @@ def impl(c):
                 out.append(None)
             elif t == "cb":
                 k, cb = op[1], op[2]
-                objs[k].add_callback(lambda m, k=k, cb=cb: cblog.append([k, cb]))
+                def call(m, k=k, cb=cb):
+                    cblog.append([k, cb])
+                    if cb >= 100 and cb % 2 == 0:
+                        # a re-entrant callback: it subscribes (again) exactly the handler that is being dispatched
+                        # right now - a duplicate, so nothing changes, but it needs whatever the dispatch holds
+                        m.pdo_node.network.subscribe(m.cob_id, m.on_message)
+                objs[k].add_callback(call)
                 out.append(None)
             elif t == "task":
                 pm = objs[op[1]]
@@ -462,12 +469,16 @@ def gen_cases(rng, tier):
             ops += [["remap", j, lay1], ["remap", NPROD + j, lay1]] + exchange(lay1)
         cases.append(dict(kind="link", maps=maps, ops=ops, vias=[rng.choice(["name", "index"])]))
     # runtime part: a waiting reader is woken by reception on ITS map from a second thread (oracle only)
-    for i in range({"quick": 8, "thorough": 40, "search": 4}[tier]):
+    for i in range({"quick": 10, "thorough": 40, "search": 5}[tier]):
         lay = [[U8, 8], [U16, 16]]
         maps = [dict(cob=0x185 + 0x100 * (k % NPROD), en=True, rtr=True, layout=lay) for k in range(2 * NPROD)]
         own, other = 0x185, 0x285
-        variant = i % 4
-        if variant == 0:      # own frame only
+        variant = i % 5
+        pre = []
+        if variant == 4:      # coarse clock: the awaited frame carries the same timestamp as the previous frame of this map
+            pre = [["frame", own, [7, 7, 7], 500 + i]]
+            frames, timeout = [[own, [1, 2, 3], 500 + i, 20]], 2.0
+        elif variant == 0:      # own frame only
             frames, timeout = [[own, [1, 2, 3], 77 + i, 20]], 2.0
         elif variant == 1:    # a frame for another subscribed map arrives first, then the awaited one
             frames, timeout = [[other, [9, 9, 9], 50 + i, 20], [own, [1, 2, 3], 77 + i, 60]], 2.0
@@ -475,7 +486,7 @@ def gen_cases(rng, tier):
             frames, timeout = [[other, [9, 9, 9], 50 + i, 10], [0x123, [4], 51 + i, 10]], 0.15
         else:                 # two frames for the awaited map: the first one is reported
             frames, timeout = [[own, [1, 2, 3], 77 + i, 20], [own, [4, 5, 6], 99 + i, 30]], 2.0
-        ops = [["sub", NPROD], ["sub", NPROD + 1], ["wait", NPROD, frames, timeout], ["st", NPROD + 1]]
+        ops = [["sub", NPROD], ["sub", NPROD + 1]] + pre + [["wait", NPROD, frames, timeout], ["st", NPROD + 1]]
         cases.append(dict(kind="wait", maps=maps, ops=ops, model=False))
     return cases
 
